@@ -1,6 +1,6 @@
 #!/bin/bash
 # try_mutant.sh <diff> <property> [<property> ...]: apply a seeded change to /repo, run the quick checks, undo it
-diff=$1; shift
+diff=$(realpath "$1"); shift
 cd /repo && git status --short | grep -q . && { echo "/repo not clean"; exit 2; }
 git -C /repo apply "$diff" || exit 2
 cd /verif
